@@ -35,6 +35,9 @@ func runC11(c *Ctx) {
 	ruleStaleDerived(c, "C11.11")
 	c04PageLSN(c, "C11.12")
 	ruleDescentAgreement(c, "C11.13")
+	ruleNoDeadStores(c, "C11.14", "storage")
+	ruleSizeWithBytes(c, "C11.15")
+	c17Existence(c, "C11.16")
 	// advisory: direct indexing
 	for _, name := range []string{"storage.(*btreeNode).updateCell", "storage.(*btreeNode).split", "storage.WALBatch.replay"} {
 		f := c.W.F(name)
